@@ -1203,8 +1203,9 @@ fn deep_scenario_base(spec: &SoloSpec, seed: u64, tier: Tier, k: u64) -> Scenari
     };
     let deep_call = HOp::Gen(Entropy::Bytes(script));
     let mut sc = Scenario::solo(c, Entropy::Rand(0));
-    if spec.hist_p >= 1.0 || spec.prop == "C14" {
-        // history properties: the extreme call first, then ordinary calls on the same generator
+    if spec.hist_p >= 1.0 || spec.prop == "C14" || k % 2 == 1 {
+        // the extreme call first, then ordinary calls on the same generator (always for the history
+        // properties, every other deep run for the rest: every call is judged)
         let follow = Entropy::Rand(rng.random::<u64>() >> 20);
         sc.history = match k % 3 {
             0 => vec![deep_call, HOp::SetRange(10, 60), HOp::Gen(follow)],
